@@ -107,6 +107,24 @@ def do_ktrace(req):
         out['steps'].append(rec)
     if req.get('trace'):
         out['trace'] = modules.trace_module(pe, req.get('optimize', False), B)
+    # the same trace through ExecutionProofExp.from_proof_hints (configuration events as the trace reports them;
+    # 'stale' replaces the reported post-configurations by other terms - they must not influence the result)
+    hints = []
+    try:
+        cur = req['init']
+        for st, rep in zip(req['steps'], req.get('reported', [None] * len(req['steps']))):
+            rule = sem.get_axiom(st['rule'])
+            subst = sem.convert_substitutions({k: kterm(v) for k, v in st['subst'].items()}, st['rule'])
+            r = req['definition']['rules'][st['rule'] - req['definition'].get('ordinal_offset', 0)]
+            nxt = rep if rep is not None else ksubst(r['r'], st['subst'])
+            hints.append(RewriteStepExpression(sem.convert_pattern(kterm(cur)), sem.convert_pattern(kterm(nxt)), rule, subst))
+            cur = nxt
+        pe2 = ExecutionProofExp.from_proof_hints(iter(hints), sem)
+        out['hints_out'] = 'ok'
+        out['hints_claims'] = [B.to_json(c) for c in pe2._claims]
+    except EXC as e:
+        out['hints_out'] = 'raise:' + type(e).__name__
+        out['hints_claims'] = []
     return out
 
 
